@@ -21,6 +21,7 @@ import (
 	"sync"
 	"sync/atomic"
 	"syscall"
+	"time"
 
 	"verifharness/vutil"
 
@@ -63,18 +64,21 @@ type Inject struct {
 }
 
 type RunRec struct {
-	Family string            `json:"family"`
-	Mode   string            `json:"mode"`
-	Prog   Prog              `json:"prog"`
-	Init   []string          `json:"init"`
-	Inject Inject            `json:"inject"`
-	Events []Event           `json:"events"`
-	End    string            `json:"end"`
-	Final  []string          `json:"final"`
-	L1     []string          `json:"l1"`
-	Count  int               `json:"count"`
-	Detail string            `json:"detail,omitempty"`
-	Sched  []vsched.Decision `json:"sched,omitempty"`
+	Family string   `json:"family"`
+	Mode   string   `json:"mode"`
+	Prog   Prog     `json:"prog"`
+	Init   []string `json:"init"`
+	Inject Inject   `json:"inject"`
+	Events []Event  `json:"events"`
+	End    string   `json:"end"`
+	Final  []string `json:"final"`
+	// the data file did not exist when the run started / when it ended (an absent file is not an empty one)
+	InitAbsent  bool              `json:"init_absent"`
+	FinalAbsent bool              `json:"final_absent"`
+	L1          []string          `json:"l1"`
+	Count       int               `json:"count"`
+	Detail      string            `json:"detail,omitempty"`
+	Sched       []vsched.Decision `json:"sched,omitempty"`
 }
 
 func chars(b []byte) []string {
@@ -306,9 +310,20 @@ func (r *runner) actor(name string, ops []Op) func() {
 					dom = "new"
 				}
 				r.log(Event{Ev: "acq", A: name, Op: o.Op, Mode: o.Mode, File: dom})
+				// the late second Close of the handle this actor closed before (the `defer f.Close()` behind an explicit
+				// Close): it reports an error and touches nothing - least of all the lock somebody holds now
+				staleMu.Lock()
+				st := stale[name]
+				staleMu.Unlock()
+				if st != nil {
+					st.Close()
+				}
 				r.critical(name, o.Mode != "r" && o.Mode != "rnew", dom)
 				r.log(Event{Ev: "rel", A: name, Op: o.Op, Mode: o.Mode, File: dom})
 				err = f.Close()
+				staleMu.Lock()
+				stale[name] = f
+				staleMu.Unlock()
 				r.log(Event{Ev: "ret", A: name, Op: o.Op, Res: okErr(err)})
 			case "mutex":
 				mu := r.shared
@@ -413,6 +428,12 @@ func newRunner(init []string) *runner {
 }
 
 var runnerSeq int64
+
+// the handle each actor closed last (kept across runs: a recycled File value would be found again by a later run)
+var (
+	staleMu sync.Mutex
+	stale   = map[string]*lockedfile.File{}
+)
 var absentSeq int64
 var harnessIOErrors int64
 var harnessBroken string
@@ -439,10 +460,18 @@ func runOne(family, mode string, cfg Config, strat vsched.Strategy, inj Inject) 
 	if harnessBroken != "" {
 		return &RunRec{Family: family, Mode: mode, Prog: cfg.Prog, Init: cfg.Init, Inject: inj, Events: []Event{}, End: "stalled", Final: []string{}, L1: []string{}}
 	}
+	initAbsent := false
 	if family == "C07" && mode == "random" && len(cfg.Init) == 0 {
 		os.Remove(r.data)
+		initAbsent = true
 	}
 	r.inject = inj
+	// every other random run: the first two lock requests that have to wait are interrupted (EINTR) before they get the
+	// lock, as by a signal whose handler does not restart the call; an interrupted request holds nothing
+	vsyscall.EINTRBudget = 0
+	if mode == "random" && atomic.LoadInt64(&runnerSeq)%2 == 0 {
+		vsyscall.EINTRBudget = 2
+	}
 	if inj.Kind == "eacces" {
 		// the files exist (somebody else made them), the caller just may not write them
 		os.WriteFile(r.mpath, nil, 0o444)
@@ -467,9 +496,9 @@ func runOne(family, mode string, cfg Config, strat vsched.Strategy, inj Inject) 
 		c.Process.Kill()
 		c.Wait()
 	}
-	final, _ := os.ReadFile(r.data)
+	final, ferr := os.ReadFile(r.data)
 	rec := &RunRec{Family: family, Mode: mode, Prog: cfg.Prog, Init: cfg.Init, Inject: inj, Events: r.events, End: out.Status,
-		Final: chars(final), L1: append([]string{}, r.l1...), Count: 1}
+		Final: chars(final), InitAbsent: initAbsent, FinalAbsent: os.IsNotExist(ferr), L1: append([]string{}, r.l1...), Count: 1}
 	if rec.Events == nil {
 		rec.Events = []Event{}
 	}
@@ -501,7 +530,7 @@ func (c *collector) add(r *RunRec) {
 		return
 	}
 	c.runs++
-	b, _ := json.Marshal([]interface{}{r.Family, r.Prog, r.Init, r.Events, r.End, r.Final, r.L1, r.Inject})
+	b, _ := json.Marshal([]interface{}{r.Family, r.Prog, r.Init, r.Events, r.End, r.Final, r.L1, r.Inject, r.InitAbsent, r.FinalAbsent})
 	k := string(b)
 	if t, ok := c.seen[k]; ok {
 		t.Count++
@@ -589,10 +618,23 @@ func freeRun(family string, procs, gor, iters int, n int64) *RunRec {
 		}
 		cmds = append(cmds, cmd)
 	}
+	// the workers of one run need about a second; workers that are still there after two minutes wait for a lock that
+	// will not come (or never end for another reason): they are ended and the run is recorded as not terminating
+	var hung int32
+	watchdog := time.AfterFunc(120*time.Second, func() {
+		atomic.StoreInt32(&hung, 1)
+		for _, cmd := range cmds {
+			cmd.Process.Kill()
+		}
+	})
 	for _, cmd := range cmds {
 		if err := cmd.Wait(); err != nil {
 			end = "panic"
 		}
+	}
+	watchdog.Stop()
+	if atomic.LoadInt32(&hung) == 1 {
+		end = "hang"
 	}
 	var evs []Event
 	l1 := []string{}
@@ -607,9 +649,9 @@ func freeRun(family string, procs, gor, iters int, n int64) *RunRec {
 		}
 		evs = append(evs, e)
 	})
-	final, _ := os.ReadFile(filepath.Join(dir, "data"))
+	final, ferr := os.ReadFile(filepath.Join(dir, "data"))
 	return &RunRec{Family: family, Mode: "free", Prog: Prog{"a1": {}, "a2": {}, "a3": {}}, Init: init, Inject: Inject{Kind: "none"},
-		Events: evs, End: end, Final: chars(final), L1: l1, Count: 1}
+		Events: evs, End: end, Final: chars(final), FinalAbsent: os.IsNotExist(ferr), L1: l1, Count: 1}
 }
 
 func main() {
@@ -744,6 +786,10 @@ func main() {
 			}
 			c2 := Config{Prog: Prog{"a1": {{Op: "transform", Kind: "ferr", Tok: "t", V: []string{}}}, "a2": {}, "a3": {}}, Init: cfg.Init}
 			col.add(runOne("Fault", "ferr", c2, &vsched.Replay{}, Inject{Kind: "ferr"}))
+			res.Eval(true)
+			// the same on a file that exists and is empty, followed by a look at it: an empty file is contents too
+			c3 := Config{Prog: Prog{"a1": {{Op: "transform", Kind: "ferr", Tok: "t", V: []string{}}, {Op: "read", V: []string{}}}, "a2": {}, "a3": {}}, Init: []string{}}
+			col.add(runOne("Fault", "ferr", c3, &vsched.Replay{}, Inject{Kind: "ferr"}))
 			res.Eval(true)
 		}
 	case "perm":
